@@ -66,7 +66,7 @@ Proof.
       by (unfold blen in *; lia).
     destruct (splice_bytes d (N.to_nat i) (N.to_nat j)) as [-> ->].
     rewrite !utf8_of_app. reflexivity.
-  - injection Hsp as <-. rewrite Hg. reflexivity.
+  - injection Hsp as <-. rewrite Hg. rewrite Bool.orb_true_r. reflexivity.
 Qed.
 
 Lemma spec_apply_scalar d ch d' :
